@@ -29,7 +29,7 @@ def max_inbucket_lcp(S, b):
     return m
 
 
-def derive_classes(meta, op, classes, phase):
+def derive_classes(meta, op, classes, phase, dname=""):
     """input-class tags used to match known findings (DESIGN §3.1): predicates on the concrete
     failing input / call site"""
     kind = meta["kind"]
@@ -48,8 +48,24 @@ def derive_classes(meta, op, classes, phase):
             b = max(2, int(meta["params"][0]))
         except (IndexError, ValueError):
             b = 2
+        if "vectors" in meta:
+            b = 1 << 30
         if max_inbucket_lcp(meta["S"], b) >= 128:
             cl.append("ht_lcp_ge_128")
+    if kind in ("HTFC", "HHTFC", "RPHTFC") and op in ("locatePrefix", "extractPrefix") and "crash" not in classes \
+            and any("memcpy" in s for s in sites):
+        cl.append("ht_memcpy_overread")
+    if kind == "RPHTFC" and op == "build" and "crash" in classes:
+        try:
+            b = max(2, int(meta["params"][0]))
+        except (IndexError, ValueError):
+            b = 2
+        if len(meta["S"]) % b == 1:
+            cl.append("last_bucket_header_only")
+    if kind in ("HASHHF", "HASHRPF") and meta.get("loadopt") in (2, 3) and (dname == "rr" or (dname == "r" and op == "save")):
+        cl.append("resave_of_compact_hash")
+    if kind == "XBW" and op == "save" and "crash" in classes and dname == "r":
+        cl.append("xbw_resave")
     if kind == "XBW" and op in ("locateSubstr", "extractSubstr"):
         cl.append("xbw_substr")
     if kind == "XBW" and op in ("locateRank", "extractRank"):
@@ -59,7 +75,7 @@ def derive_classes(meta, op, classes, phase):
 
 class Config:
     def __init__(self, pid, kinds, make_cmds, rule, nsets=(8, 60), extra_eval=None, big=False, title="",
-                 kinds_thorough=None, post=None, set_filter=None, params_fn=None, timeout_case=60):
+                 kinds_thorough=None, post=None, set_filter=None, params_fn=None, timeout_case=60, serial=False, components=()):
         self.pid, self.kinds, self.make_cmds, self.rule = pid, kinds, make_cmds, rule
         self.nsets, self.extra_eval, self.big, self.title = nsets, extra_eval, big, title
         self.kinds_thorough = kinds_thorough or kinds
@@ -67,6 +83,8 @@ class Config:
         self.set_filter = set_filter
         self.params_fn = params_fn or D.params_for
         self.timeout_case = timeout_case
+        self.serial = serial
+        self.components = list(components)
 
 
 def std_phase_cmds(S, kind, params, phases=("reloaded",), loadopt=1):
@@ -78,7 +96,7 @@ def std_phase_cmds(S, kind, params, phases=("reloaded",), loadopt=1):
     if "reloaded" in phases or "own" in phases:
         cmds.append("save d i")
     if "reloaded" in phases:
-        cmds.append("load r i %s %d" % ("generic" if kind != "BLOCKS" else "BLOCKS", loadopt))
+        cmds.append("load r i %s %d" % ("generic", loadopt))
         names["r"] = "reloaded"
     if "own" in phases:
         cmds.append("load o i %s %d" % (kind, loadopt))
@@ -157,6 +175,10 @@ def run(runobj, cfg, tier, seed, replay):
     pid = cfg.pid
     run.rule = cfg.rule
     proof_ok, r = vlib.proof_side(run, pid)
+    serial_failed = []
+    if cfg.serial:
+        sok, serial_failed, slog = vlib.serial_side(run, pid)
+        run.extra["schema_log_tail"] = slog[-1500:] if not sok else ""
     ok, msg = vlib.build_oracle()
     run.oblige("extracted oracle builds", ok, msg)
     exe, msg = vlib.build_driver("asan")
@@ -211,7 +233,7 @@ def run(runobj, cfg, tier, seed, replay):
         for f in prop_fails:
             nfail += 1
             phase = c.meta.get("phases", {}).get(f.dname, "")
-            cl = derive_classes(c.meta, f.op, f.classes, phase)
+            cl = derive_classes(c.meta, f.op, f.classes, phase, f.dname)
             payload = {"kind": kind, "operation": f.op, "params": c.meta["params"], "phase": phase,
                        "command": f.cmd, "detail": f.detail, "classes": cl, "case": case_payload(c),
                        "impl_status": io["status"], "impl_err": io["err"][:6]}
@@ -240,8 +262,22 @@ def run(runobj, cfg, tier, seed, replay):
                not corr_breaks, "" if not corr_breaks else repr(corr_breaks[0][1][:2]))
     run.oblige("correspondence: implementation = specification (Spec.v) on every query of every case (known findings excepted)",
                not run.violations, "" if not run.violations else run.violations[0]["what"][:300])
+    comp_dis = 0
+    if cfg.components and not replay:
+        from props import compcheck
+        comp_dis, first = compcheck.run_components(run, cfg.components, tier, seed, None, exe, label=" (concrete component models)")
+        if comp_dis and not run.violations:
+            c, dis = first
+            run.violation("model/implementation correspondence broken for a component model (property not seen to fail)",
+                          {"kind": str(c.meta.get("kind", "")), "operation": "correspondence", "disagreements": dis[:10],
+                           "case": {"name": c.name, "cmds": c.cmds}}, found_input=False)
     if cfg.post:
         cfg.post(run, cases, impl, model)
+    if serial_failed and not run.violations:
+        run.violation("regenerated schema obligation(s) no longer check against the current source: %s (property not seen to fail on the explored inputs)"
+                      % ", ".join(serial_failed[:6]),
+                      {"kind": "schema", "operation": "Properties_serial", "obligations": serial_failed,
+                       "detail": run.extra.get("schema_log_tail", "")}, found_input=False)
     if not proof_ok:
         run.violation("proof obligation of %s no longer checks" % pid,
                       {"kind": "proof", "operation": "coqc", "detail": run.extra.get("coq_failure", {})}, found_input=False)
